@@ -96,11 +96,13 @@ def r19_1(ctx):
                 name = args[1][1].rsplit('::', 1)[-1]
                 idx = fd.get('index')
                 ok_idx = idx is not None and idx[0] == 'field' and idx[2] == '0' and any(is_call(x, '::next') for x in walk(idx))
-                src = None
-                if ok_idx:
-                    it = [x for x in walk(idx) if is_call(x, '::next')][0]
-                    # the iterator is enumerate(..) of the batches
-                    hd = p.blocks
+                if not ok_idx and idx is not None and idx[0] == 'havoc' and len(idx[1]) == 1 and p.end == 'cut':
+                    # manual counter: `let mut index = 0; for .. { use(index); index += 1; }` - its value at the end of this very
+                    # iteration must be the value used plus one
+                    v = p.sym.loc_value_at((idx[1][0],), (len(p.blocks) - 2, 'T'))
+                    ok_idx = v[0] == 'bin' and v[1] == 'Add' and v[2][0] == 'havoc' and v[2][1] == idx[1] and v[3] == ('const', 1)
+                elif not ok_idx and idx is not None and idx[0] == 'havoc' and p.end != 'cut':
+                    continue      # judged on the path that closes the iteration
                 seen.setdefault(name, []).append((ok_idx, fd.get('gen')))
     for name in ('KvBatch', 'UnionBatch'):
         v = seen.get(name)
@@ -142,6 +144,58 @@ def closure_form(b, path):
     return fmt(r)[:60]
 
 
+def merger_forms(b, e, depth=0):
+    """recognised algebraic forms of every function value that may flow into expression e"""
+    out = []
+    for x in walk(e):
+        if x[0] == 'closure':
+            out.append(closure_form(b, x[1]))
+        elif x[0] == 'cfn':
+            nm = x[1]
+            out.append('max' if nm.endswith('cmp::max') or nm.endswith('Ord::max') else 'min' if nm.endswith('cmp::min') or nm.endswith('Ord::min') else
+                       '+' if nm.endswith('Add>::add') or nm.endswith('u64>::wrapping_add') else nm[:60])
+        elif x[0] == 'call' and isinstance(x[1], str) and x[1] in b.fns and depth < 3 and 'fn(' in b.fns[x[1]].local_ty(0).replace('FnDef', ''):
+            g = b.fns[x[1]]
+            for q in explore(g, max_visits=1, limit=200):
+                if q.end == 'return':
+                    out.extend(merger_forms(b, q.ret(), depth + 1))
+    return out
+
+
+def acc_folds(b, g):
+    """loop-form folds in g: [(seed expr or None, applies_merger)] for loop-carried u64 accumulators combined through a dyn Fn"""
+    res = []
+    loops = g.loop_havoc()
+    accs = sorted({T[0] for h, ts in loops.items() for T, _ in ts if len(T) == 1 and g.local_ty(T[0]) == 'u64'})
+    for a in accs:
+        step_ok = False
+        for p in explore(g, max_visits=1, havoc=True, limit=2000):
+            if p.end != 'cut':
+                continue
+            v = p.sym.loc_value_at((a,), (len(p.blocks) - 2, 'T'))
+            if is_call(v, 'Fn::call') or is_call(v, 'FnMut::call_mut'):
+                hv = [x for x in walk(v) if x[0] == 'havoc' and x[1] == (a,)]
+                step_ok = step_ok or bool(hv)
+        if not step_ok:
+            continue
+        # the value the accumulator has when the loop is entered
+        seeds = []
+        sy = Sym(g)
+        body = set().union(*g.loops().values()) if g.loops() else set()
+        for bid, bl in g.blocks.items():
+            if bl['cleanup'] or bid in body:
+                continue
+            for i, st in enumerate(bl['stmts']):
+                if st['k'] == 'assign' and not st['place']['proj'] and st['place']['local'] == a:
+                    seeds.append(sy.rvalue(st['rv'], bid, i))
+        res.append((seeds, True))
+    return res
+
+
+def seed_is_element(e):
+    return e[0] != 'const' and any(is_call(x, '::next') or is_call(x, '::split_first') or is_call(x, '::first') or x[0] == 'index' for x in walk(e))
+
+
 def r19_2(ctx):
     R = ctx.rule('R19.2', 'merger algebra: registered mergers are +, max, min; the union fold is seeded with the first value', floor=4)
     b = ctx.bin
@@ -152,10 +206,9 @@ def r19_2(ctx):
         forms = []
         for p in explore(f, max_visits=1, havoc=True, limit=4000):
             for (k, bid, callee, args, t) in path_calls(p):
-                if isinstance(callee, str) and callee.endswith('::value_merger'):
-                    clo = [x for x in args if x[0] == 'closure']
-                    if clo:
-                        forms.append(closure_form(b, clo[0][1]))
+                if isinstance(callee, str) and callee.endswith('::value_merger') and callee.startswith('merge::'):
+                    for a in args[1:]:
+                        forms.extend(merger_forms(b, a))
         fs = sorted(set(x for x in forms if x))
         ctx.check(R, bool(fs) and set(fs) <= {'+', 'max', 'min'}, 'registered-mergers', 'every value merger must be associative and commutative (recognised: +, max, min), found %s' % fs, fn=f, detail=fs)
     un = b.fn(UN)
@@ -177,16 +230,34 @@ def r19_2(ctx):
                     rs = [q.ret() for q in explore(cf, max_visits=1) if q.end == 'return']
                     ok = len(rs) == 1 and is_call(rs[0], 'Fn::call') and len([a for a in walk(rs[0]) if a[0] == 'param']) >= 2
                 ctx.check(R, ok, 'fold-applies-merger', 'each further value must be combined through the configured merger', fn=un)
+    helper_fold = set()
+    if n == 0:
+        # loop form, possibly in a private helper: acc = first value; for each further value: acc = merger(acc, value)
+        cg = CallGraph(b)
+        cands = [un] + [b.fns[q] for q in sorted(cg.reachable([un.path])) if q in b.fns and q.startswith('merge::') and q != un.path and '{closure' not in q]
+        for g in cands:
+            for seeds, applies in acc_folds(b, g):
+                n += 1
+                helper_fold.add(g.path)
+                ok = bool(seeds) and all(seed_is_element(x) for x in seeds)
+                ctx.check(R, ok, 'fold-seed', 'the fold over the values of one key must start from the first value, not from %s: a constant seed is not neutral for every merger (0 is absorbing for min)' % [fmt(x)[:40] for x in seeds], fn=g)
+                ctx.check(R, applies, 'fold-applies-merger', 'each further value must be combined through the configured merger', fn=g)
     if n == 0:
         ctx.undecided(R, 'fold-seed', 'no fold over the per-key values found in the union batch (shape left the recognised family)', fn=un)
     # the merged value is what gets inserted
     for p in explore(un, max_visits=1, havoc=True, limit=4000):
         if p.end == 'cut':
             ins = [c for c in path_calls(p) if isinstance(c[2], str) and c[2].endswith('Builder::<W>::insert')]
-            mg = [d for d in p.decisions if d[2][0] == 'discr' and d[2][1][0] == 'field' and d[2][1][2] == 'value_merger']
+            mg = [d for d in p.cdecisions() if d[2][0] == 'discr' and d[2][1][0] == 'field' and d[2][1][2] == 'value_merger']
+            if ins and not mg and any(x[0] == 'call' and x[1] in helper_fold for x in walk(ins[0][3][2])):
+                v = ins[0][3][2]
+                hc = [x for x in walk(v) if x[0] == 'call' and x[1] in helper_fold][0]
+                ok = any(y[0] == 'field' and y[2] == 'value_merger' for a in hc[2] for y in walk(a))
+                ctx.check(R, ok, 'inserted-is-merged', 'with a merger configured the value inserted for a key must be the fold of all its values: %s' % fmt(v)[:80], fn=un)
+                break
             if ins and mg and mg[-1][3] == 1:
                 v = ins[0][3][2]
-                ok = any(is_call(x, '::fold') for x in walk(v))
+                ok = any(is_call(x, '::fold') for x in walk(v)) or any(x[0] == 'havoc' for x in walk(v)) and bool(helper_fold)
                 ctx.check(R, ok, 'inserted-is-merged', 'with a merger configured the value inserted for a key must be the fold of all its values: %s' % fmt(v)[:80], fn=un)
                 break
 
@@ -203,22 +274,45 @@ def r19_3(ctx):
         ctx.violation(R, 'dedup:' + f.path, 'identical (key, value) rows are collapsed before the merger sees them: two rows a,5 in one batch count once, in two batches twice - the result depends on the batch size', fn=f, at=t.get('span'))
     ctx.check(R, not ded, 'no-dedup', 'de-duplication in the merge pipeline')
     n = 0
-    for p in explore(kv, max_visits=1, havoc=True, limit=4000):
-        if p.end != 'cut':
-            continue
-        eqd = [d for d in p.decisions if is_call(d[2], '::eq') and any(x[0] == 'call' and isinstance(x[1], str) and x[1].endswith('last_mut') for x in walk(d[2]))]
-        if not eqd or eqd[-1][3] != 1:
-            continue
-        mg = [d for d in p.decisions if d[2][0] == 'discr' and d[2][1][0] == 'field' and d[2][1][2] == 'value_merger']
-        pushes = [c for c in path_calls(p) if isinstance(c[2], str) and c[2].endswith('::push')]
-        if mg and mg[-1][3] == 1:
-            n += 1
-            st = [(loc, s, k, i) for (k, i, loc, s) in p.stores() if loc[-1:] == ('1',)]
-            ok = False
-            if len(st) == 1:
-                v = p.sym.rvalue_at(st[0][1]['rv'], (st[0][2], st[0][3]))
-                ok = is_call(v, 'Fn::call') and any(x[0] == 'field' and x[2] == '1' and any(is_call(y, 'last_mut') for y in walk(x)) for x in walk(v)) and any(x[0] == 'field' and x[2] == '1' and any(is_call(y, '::next') for y in walk(x)) for x in walk(v))
-            ctx.check(R, ok and not pushes, 'in-batch-merge', 'a key repeated within one batch must have its values combined by the merger (kept value := merger(kept value, new value)), exactly like keys repeated across batches', fn=kv)
+    cg = CallGraph(b)
+    cands = [kv] + [b.fns[q] for q in sorted(cg.reachable([kv.path])) if q in b.fns and q.startswith('merge::') and q != kv.path and '{closure' not in q]
+
+    def merger_opt(g, e):
+        """is e the optional merger: the batch's field or a helper parameter typed Option<&dyn Fn..>"""
+        for x in walk(e):
+            if x[0] == 'field' and x[2] == 'value_merger':
+                return True
+            if x[0] == 'param' and 'dyn' in g.local_ty(x[2]) and 'Fn' in g.local_ty(x[2]):
+                return True
+        return False
+    for g in cands:
+        if g is not kv:
+            # the helper must be handed this batch's merger
+            handed = False
+            for p in explore(kv, max_visits=1, havoc=True, limit=400):
+                for c in path_calls(p):
+                    if c[2] == g.path and any(y[0] == 'field' and y[2] == 'value_merger' for a in c[3] for y in walk(a)):
+                        handed = True
+                if handed:
+                    break
+            if not handed:
+                continue
+        for p in explore(g, max_visits=1, havoc=True, limit=4000):
+            if p.end != 'cut':
+                continue
+            eqd = [d for d in p.decisions if is_call(d[2], '::eq') and any(x[0] == 'call' and isinstance(x[1], str) and x[1].endswith('last_mut') for x in walk(d[2]))]
+            if not eqd or eqd[-1][3] != 1:
+                continue
+            mg = [d for d in p.cdecisions() if d[2][0] == 'discr' and merger_opt(g, d[2][1])]
+            pushes = [c for c in path_calls(p) if isinstance(c[2], str) and c[2].endswith('::push')]
+            if mg and mg[-1][3] == 1:
+                n += 1
+                st = [(loc, s_, k, i) for (k, i, loc, s_) in p.stores() if loc[-1:] == ('1',)]
+                ok = False
+                if len(st) == 1:
+                    v = p.sym.rvalue_at(st[0][1]['rv'], (st[0][2], st[0][3]))
+                    ok = is_call(v, 'Fn::call') and any(x[0] == 'field' and x[2] == '1' and any(is_call(y, 'last_mut') for y in walk(x)) for x in walk(v)) and any(x[0] == 'field' and x[2] == '1' and any(is_call(y, '::next') for y in walk(x)) for x in walk(v))
+                ctx.check(R, ok and not pushes, 'in-batch-merge', 'a key repeated within one batch must have its values combined by the merger (kept value := merger(kept value, new value)), exactly like keys repeated across batches', fn=g)
     if n == 0:
         ctx.violation(R, 'in-batch-merge', 'no path of the first-phase batch combines the values of a repeated key with the merger: in-batch repeats are resolved differently from cross-batch repeats', fn=kv)
     # builder errors propagate
